@@ -11,7 +11,7 @@ Oracle (implementation only, run on every call): a valid evaluation must return 
 log-densities at the complete assignment (fixed so far ∪ passed now); a valid conditioning call must
 succeed; an evaluation with a missing / unknown / doubly specified variable must raise.
 """
-import math, random, itertools, json
+import math, random, itertools, json, os
 import numpy as np
 from harness.core import import_cuqi, quiet, q, qv, close
 
@@ -126,7 +126,10 @@ def gen_graph(rng, thorough):
                 v.attrs[loc_attr] = Spec([], lambda c=c: c)
             elif len(ps) == 1 and ps[0].dim == v.dim and not extra_pos and rng.random() < 0.2:
                 # a callable that hands back the very object it was given (identity)
-                v.attrs[loc_attr] = Spec([ps[0].name], lambda x: x)
+                # (an ndarray comes back as the same object; other representations are converted, as a user callable
+                #  has to hand the family a 1-d array, like every other callable of this generator: Laplace does `x - location`
+                #  and `norm(., 1)` without conversion, which fails for list - list and for numpy scalars)
+                v.attrs[loc_attr] = Spec([ps[0].name], lambda x: x if (isinstance(x, np.ndarray) and x.ndim >= 1) else np.atleast_1d(np.asarray(x, dtype=float)))
                 v.attrs[loc_attr].identity = True
             else:
                 mats = [_imat(rng, v.dim, p.dim) for p in ps]
@@ -426,6 +429,8 @@ class Program:
         except Exception as e:  # noqa
             rec = "err:" + type(e).__name__
             ok = False
+            if what == "valid" and os.environ.get("C01_TRACE"):
+                import traceback; traceback.print_exc()
         self._record(token, rec, {"op": "cond", "kind": kb, "mode": mode, "what": what})
         if _snap(pargs, kwargs) != before:
             self.fails.append((f"mutates-caller:cond:{kb}", {**self.desc, "call": token, "record": len(self.impl) - 1}, "arguments unchanged",
@@ -483,6 +488,8 @@ class Program:
                 self.outputs.append((val, float(arr[0]), token))
         except Exception as e:  # noqa
             rec = "err:" + type(e).__name__
+            if what == "valid" and os.environ.get("C01_TRACE"):
+                import traceback; traceback.print_exc()
         self._record(token, rec, {"op": "logd", "kind": kb, "mode": mode, "what": what})
         if _snap(pargs, kwargs) != before:
             self.fails.append((f"mutates-caller:logd:{kb}", {**self.desc, "call": token, "record": len(self.impl) - 1}, "arguments unchanged",
